@@ -202,6 +202,9 @@ static inline Result parse(const std::string &s, const Options &opt) {
     if (m.minor >= 1) for (auto &v : expect) { if (lower(v) == "100-continue") m.features |= F_EXPECT_CONTINUE; else { m.features |= F_EXPECT_OTHER; m.may_reject = true; } }
     for (auto &v : conn) for (auto &e : split_commas(v)) if (lower(e) == "close") { m.close_after = true; m.features |= F_CLOSE; }
     if (m.minor == 0) m.close_after = true;
+    // content on a method for which RFC 9110 9.3 defines none (GET, HEAD, DELETE: "might lead some implementations to reject the
+    // request"; TRACE: client MUST NOT send content): the server may reject, but framing stays what the fields say (RFC 9112 6)
+    if ((m.chunked || (m.has_cl && m.cl > 0)) && (m.method == "GET" || m.method == "HEAD" || m.method == "DELETE" || m.method == "TRACE")) m.may_reject = true;
     // body
     if (m.chunked) {
       for (;;) {
